@@ -396,6 +396,21 @@ def fidelity(case, o):
                         gl[({"KFull": "full", "KDelta": "delta", "KViolation": "violation"}[k], cn(crit))] += 1
                 if wl != gl:
                     out.append(f"imports.lock audits of {n} from {peer}: file {sorted(wl.elements(), key=str)[:3]}, read {sorted(gl.elements(), key=str)[:3]}")
+    # unlocked: the publisher records the run works with are what crates.io serves NOW (version, user, day), whatever
+    # imports.lock remembered from earlier runs
+    if not locked and isinstance(case.get("registry"), dict):
+        import datetime
+        regp = case["registry"].get("packages") or {}
+        known = {u[0] for u in case["registry"].get("users") or []}
+        for ni, n in enumerate(names):
+            ps = pkg_store(mi["store"], ni)
+            served = {(r["version"], r["by"], datetime.date.fromisoformat(r["when"]).toordinal())
+                      for r in regp.get(n, []) if r.get("by") is not None and r["by"] in known}
+            for p_ in ps[5]:
+                got1 = (vs(args(p_)[0]), args(p_)[1], num(args(p_)[2]))
+                if got1 not in served:
+                    out.append(f"publisher record of {n} used by the unlocked run: version {got1[0]} by user {got1[1]} on day {got1[2]}; "
+                               f"crates.io serves {sorted(served, key=str)[:4]}")
     # third-party classification
     nodes, _ = graph_nodes(mi["graph"])
     pol = st.get("policy", {})
